@@ -65,4 +65,5 @@ def run(ctx):
     C28.rule_remove_uncommitted_only(ctx)
     C28.rule_commit_quorum(ctx)
     C28.rule_prev_check(ctx)
+    C28.rule_cached_tip_follows_storage(ctx)
     return 0
